@@ -26,6 +26,20 @@ def _fill(val, x):
     return float(x)
 
 
+def _fill_first(val, x):
+    """Like _fill but only the first component of (the first) array becomes non-finite."""
+    if isinstance(val, np.ndarray):
+        out = np.array(val, dtype=float)
+        if out.size:
+            out.flat[0] = x
+        return out
+    if isinstance(val, tuple):
+        return (_fill_first(val[0], x),) + tuple(val[1:])
+    if callable(val):
+        return lambda *a, **k: _fill_first(val(*a, **k), x)
+    return float(x)
+
+
 class FaultPlan:
     """Counts calls of named callbacks while `armed`; injects one fault at (name, k)."""
 
@@ -55,6 +69,8 @@ class FaultPlan:
                         raise ValueError("injected fault")
                     raise np.linalg.LinAlgError("injected fault")
                 self.fired = (name, idx, self.kind, insolver)
+                if self.kind in ("inf0", "nan0"):
+                    return _fill_first(fn(*a, **kw), np.inf if self.kind == "inf0" else np.nan)
                 x = {"nan": np.nan, "inf": np.inf, "-inf": -np.inf}[self.kind]
                 return _fill(fn(*a, **kw), x)
             return self._post(name, fn(*a, **kw))
@@ -69,5 +85,5 @@ class FaultPlan:
         return out
 
 
-VALUE_KINDS = ("nan", "inf", "-inf")
+VALUE_KINDS = ("nan", "inf", "-inf", "inf0", "nan0")
 EXC_KINDS = ("value_error", "linalg_error")
